@@ -196,7 +196,8 @@ class Model(object):
         self.eval_num[k] = eval_num
         self.factorisation_current = False
 
-        if allow_kopt_update and self.objval[k] < self.objopt():
+        # (a NaN incumbent compares False with everything, so it must be displaced explicitly)
+        if allow_kopt_update and (self.objval[k] < self.objopt() or (np.isnan(self.objopt()) and not np.isnan(self.objval[k]))):
             self.kopt = k
         return
 
@@ -224,7 +225,8 @@ class Model(object):
             self.objval[k] += self.h(remove_scaling(self.xbase + self.points[k, :], self.scaling_changes), *self.argsh)
         self.nsamples[k] += 1
 
-        self.kopt = np.argmin(self.objval[:self.npt()])  # make sure kopt is always the best value we have
+        if not np.all(np.isnan(self.objval[:self.npt()])):  # argmin would select a NaN entry
+            self.kopt = np.nanargmin(self.objval[:self.npt()])  # make sure kopt is always the best value we have
         return
 
     def add_new_point(self, x, rvec, eval_num):
@@ -239,7 +241,7 @@ class Model(object):
         self.num_pts += 1  # make sure npt is updated
         self.npt_so_far += 1
 
-        if obj < self.objopt():
+        if obj < self.objopt() or (np.isnan(self.objopt()) and not np.isnan(obj)):
             self.kopt = self.npt() - 1
 
         self.factorisation_current = False
@@ -263,7 +265,7 @@ class Model(object):
         obj = sumsq(rvec)
         if self.h is not None:
             obj += self.h(remove_scaling(xabs, self.scaling_changes), *self.argsh)
-        if self.objsave is None or obj <= self.objsave:
+        if self.objsave is None or obj <= self.objsave or (np.isnan(self.objsave) and not np.isnan(obj)):
             self.xsave = xabs
             self.rsave = rvec.copy()
             self.objsave = obj
@@ -277,7 +279,7 @@ class Model(object):
 
     def get_final_results(self):
         # Return x and objval for optimal point (either from xsave+objsave or kopt)
-        if self.objsave is None or self.objopt() <= self.objsave:  # optimal has changed since xsave+objsave were last set
+        if self.objsave is None or self.objopt() <= self.objsave or np.isnan(self.objsave):  # optimal has changed since xsave+objsave were last set
             return self.xopt(abs_coordinates=True).copy(), self.ropt().copy(), self.objopt(), self.model_jac.copy(), self.nsamples[self.kopt], self.eval_num[self.kopt], self.model_jac_eval_nums
         else:
             return self.xsave.copy(), self.rsave.copy(), self.objsave, self.jacsave, self.nsamples_save, self.eval_num_save, self.jacsave_eval_nums
